@@ -208,6 +208,9 @@ CATALOGUE = {
     "wide-int-literal-operand": ["wv = 1", "print typeof (wv + 2147483648)", "print wv + 2147483648", "print typeof (4294967296 * wv)", "print 4294967296 * wv"],
     "wide-int-literal-argument": ["wf = fn(q: bigint) -> bigint {", "\treturn q + B1", "}", "wv = 1", "print typeof wf(wv + 2147483648)", "print wf(wv + 2147483648)"],
     "wide-int-literal-compared": ["wv = 1", "print typeof (wv < 2147483648)", "print wv < 2147483648"],
+    "alias-negate": ["am: A = 4", "print typeof (-am)", "print -am"],
+    "alias-negate-as-second-argument": ["am: A = 4", "ad2 = fn(p: int, q: int) -> int {", "\treturn p + q", "}", "print typeof ad2(1, -am)", "print ad2(1, -am)"],
+    "alias-negate-float-in-list": ["type F float", "af: F = 1.5", "print typeof [0.5, -af]", "print [0.5, -af]"],
     "alias-arith": ["type M int", "am: M = 4", "print typeof (am * 2)", "print am * 2"],
     "self-returning-method": ["class S {", "\tn: int", "\tconstructor(self) {", "\t\tself.n = 1", "\t}", "\tfn me(self) -> Self {", "\t\treturn self",
                               "\t}", "}", "so = S()", "print typeof so.me().n", "print so.me().n"],
